@@ -18,10 +18,10 @@ func VP_C14_step() {
 		Seek(int64, int) (int64, error)
 	}
 	var mem *vpMemFile
-	if vp.Tier() == 0 || vp.Choice(2) == 0 {
+	if vp.Tier() == 0 || K >= 2 || vp.Choice(2) == 0 {
 		mem = &vpMemFile{b: img}
 		f = mem
-	} else {
+	} else { // (one live chunk only: the full product did not finish inside the thorough budget)
 		at := &vpMemFileAt{vpMemFile{b: img}}
 		mem = &at.vpMemFile
 		f = at
@@ -39,6 +39,9 @@ func VP_C14_step() {
 	ti := vp.Choice(nc)
 	x, z := vpCoords[ti][0], vpCoords[ti][1]
 	lens := vpC14Lens()
+	if K >= 3 {
+		lens = []int{1, 4092, 4093}
+	}
 	n := lens[vp.Choice(len(lens))]
 	data := make([]byte, n)
 	data[0] = vp.Byte()
